@@ -108,6 +108,10 @@ pub fn gen_lines(rng: &mut Rng, max_lines: usize) -> Vec<Line> {
                 classes.push(c);
             }
         }
+        if rng.chance(1, 40) {
+            // all classes of this line are commented out
+            classes.clear();
+        }
         if rng.chance(1, 6) && !lines.is_empty() {
             // exact duplicate range with other classes
             let l = rng.pick(&lines).clone();
@@ -127,6 +131,8 @@ pub fn render(rng: &mut Rng, lines: &[Line]) -> String {
             1 => format!("0x{:x}", v),
             _ => format!("0x{:06x}", v),
         };
+        // (a line whose classes are all commented out contributes nothing)
+        let classless = l.classes.is_empty();
         let range = if l.lo == l.hi && rng.chance(2, 3) {
             hex(rng, l.lo)
         } else {
@@ -134,6 +140,10 @@ pub fn render(rng: &mut Rng, lines: &[Line]) -> String {
         };
         let sep = if rng.chance(1, 3) { "\t" } else { " " };
         let classes: Vec<&str> = l.classes.iter().map(|c| CLASSES[*c].0).collect();
+        if classless {
+            s.push_str(&format!("{}{}# KANJI ALPHA\n", range, sep));
+            continue;
+        }
         s.push_str(&format!("{}{}{}", range, sep, classes.join(sep)));
         if rng.chance(1, 4) {
             s.push_str(" # comment KANJI");
@@ -285,6 +295,44 @@ pub fn run(ctx: &Ctx, rep: &mut Report) {
                 }
                 Ok(Err(e)) => rep.violation("order_dependence", "CharacterCategory::from_file", &format!("the definition loads from a reader but not from a file: {:?}", e), "", scenario(&text)),
                 Err(p) => rep.violation("query_panic", &p.site, &p.msg, "", scenario(&text)),
+            }
+        }
+        // ... and now and then from a path that is not a regular file (a named pipe: its size is not known in advance)
+        if di % 64 == 7 {
+            let fifo = dir.path.join("char.fifo");
+            let _ = std::fs::remove_file(&fifo);
+            let made = std::process::Command::new("mkfifo").arg(&fifo).status().map(|s| s.success()).unwrap_or(false);
+            if made {
+                let data = bytes.clone();
+                let fp = fifo.clone();
+                let writer = std::thread::spawn(move || {
+                    if let Ok(mut f) = std::fs::OpenOptions::new().write(true).open(&fp) {
+                        use std::io::Write;
+                        let _ = f.write_all(&data);
+                    }
+                });
+                let r = guard(|| CharacterCategory::from_file(&fifo));
+                let _ = writer.join();
+                let _ = std::fs::remove_file(&fifo);
+                match r {
+                    Ok(Ok(cf)) => {
+                        rep.count("definitions_loaded_through_a_named_pipe", 1);
+                        for l in &lines {
+                            for c in [l.lo, l.hi, l.lo + (l.hi - l.lo) / 2] {
+                                if let Some(ch) = char::from_u32(c) {
+                                    let exp = expected_bits(&lines, c);
+                                    let got = cf.get_category_types(ch).bits();
+                                    if got != exp {
+                                        rep.violation("classes", "CharacterCategory::from_file", &format!("definition read from a named pipe: U+{:04X} must have {} but {} is reported", c, names(exp), names(got)), "", scenario(&text));
+                                        break;
+                                    }
+                                }
+                            }
+                        }
+                    }
+                    Ok(Err(e)) => rep.violation("order_dependence", "CharacterCategory::from_file", &format!("the definition loads from a reader but not from a named pipe: {:?}", e), "", scenario(&text)),
+                    Err(p) => rep.violation("query_panic", &p.site, &p.msg, "", scenario(&text)),
+                }
             }
         }
         // iteration over ranges agrees with the point query and tiles the code space
